@@ -569,7 +569,8 @@ class MinFlowDecomp(pathmodel.AbstractPathModelDAG): # Note that we inherit from
         if len(all_weights) > 0:
             self._lowerbound_k = max(self._lowerbound_k, math.ceil(math.log2(len(all_weights))))
 
-        self._lowerbound_k = max(self._lowerbound_k, stG.get_width(edges_to_ignore=self.edges_to_ignore))
+        # the synthetic source/sink edges need no explanation either (as in kFlowDecomp.get_lowerbound_k)
+        self._lowerbound_k = max(self._lowerbound_k, stG.get_width(edges_to_ignore=list(ignored.union(stG.source_sink_edges))))
 
         # the generating-set bound is only valid when every edge takes part in the decomposition
         if len(ignored) == 0 and self.optimization_options.get("use_min_gen_set_lowerbound", MinFlowDecomp.use_min_gen_set_lowerbound):  
